@@ -470,6 +470,18 @@ static plan::Plan genC03(uint64_t seed, const std::string& tier) {
   addRequests(&p, r, &g, own, nreq, n * 60, true, 100);
   for (int i = 0; i < nreq * 3; i++) p.add(reactLine(r, -1));
   if (r.chance(0.2)) addStalls(&p, r, n * 60);
+  // reads that come back early without data (readiness without data, a poll that returns before its timeout): whoever
+  // decides from the requested instead of the elapsed time that the bus was silent transmits too early
+  if (r.chance(0.45)) {
+    static const char* early[] = {"readagain", "readagain", "readzero", "pollearly"};
+    int nf = 8 + static_cast<int>(r.below(40));
+    if (r.chance(0.7)) p.add("cfg gensyn=1 readonly=0");   // mostly with ebusd as a candidate SYN generator
+    for (int i = 0; i < nf; i++) {
+      char fb[80];
+      snprintf(fb, sizeof(fb), "fault %s io=%d", early[r.below(4)], 10 + static_cast<int>(r.below(static_cast<uint32_t>(n * 40))));
+      p.add(fb);
+    }
+  }
   return p;
 }
 
